@@ -33,11 +33,15 @@ type ChainTx struct {
 	Seqs    []uint32
 	Outs    []ChainOut
 	Height  uint32 // 0 = mempool
-	Wallet  bool   // funded by a simulated wallet: inputs are not validated
-	By      string // who handed it to the chain (node name / peer name)
-	Kind    string // open | preimage | csv | coop | raw
-	Msg     *wire.MsgTx
-	Raw     any
+	// MaxDepth is the largest depth the transaction ever had on the best chain.
+	MaxDepth uint32
+	// NoMine keeps the transaction in the mempool forever (never confirmed).
+	NoMine bool
+	Wallet bool   // funded by a simulated wallet: inputs are not validated
+	By     string // who handed it to the chain (node name / peer name)
+	Kind   string // open | preimage | csv | coop | raw
+	Msg    *wire.MsgTx
+	Raw    any
 }
 
 // Chain is a deterministic single-best-chain simulator with a mempool.
@@ -125,12 +129,37 @@ func (c *Chain) mineLocked() {
 	c.hashes = append(c.hashes, c.mkHash(h))
 	for _, id := range c.order {
 		tx := c.txs[id]
-		if tx != nil && tx.Height == 0 {
+		if tx != nil && tx.Height == 0 && !tx.NoMine {
 			tx.Height = h
+		}
+	}
+	for _, tx := range c.txs {
+		if tx.Height != 0 && h-tx.Height+1 > tx.MaxDepth {
+			tx.MaxDepth = h - tx.Height + 1
 		}
 	}
 	c.Version++
 	c.w.emitLocked("", 0, "chain.block", EvBlock{Chain: c.Name, Height: h})
+}
+
+// TxLocked / HeightLocked / ConfsLocked are for online monitors, which run under the world lock.
+func (c *Chain) TxLocked(id string) *ChainTx  { return c.txs[id] }
+func (c *Chain) HeightLocked() uint32         { return c.heightLocked() }
+func (c *Chain) ConfsLocked(id string) uint32 { return c.confsLocked(id) }
+func (c *Chain) SpentByLocked(o OutRef) *ChainTx {
+	if id, ok := c.spent[o]; ok {
+		return c.txs[id]
+	}
+	return nil
+}
+
+// Unconfirmable keeps a transaction in the mempool forever.
+func (c *Chain) Unconfirmable(id string) {
+	c.w.mu.Lock()
+	defer c.w.mu.Unlock()
+	if tx := c.txs[id]; tx != nil {
+		tx.NoMine = true
+	}
 }
 
 // Reorg replaces the last k blocks by k+extra new ones. Transactions confirmed in
